@@ -13,7 +13,33 @@ def sh(cmd, cwd=None, timeout=3600):
     r = subprocess.run(cmd, shell=True, text=True, capture_output=True, cwd=cwd, timeout=timeout)
     return r.returncode, r.stdout + r.stderr
 
+def checks_only(sid, checks):
+    """Re-run checks against an already confirmed seed (patch taken from /verif/seeded/<id>)."""
+    d = f'/verif/seeded/{sid}'
+    meta = json.load(open(f'{d}/meta.json'))
+    assert sh('git -C /repo status --porcelain')[1].strip() == '', '/repo not clean'
+    try:
+        rc, o = sh(f'git -C /repo apply {d}/patch.diff')
+        assert rc == 0, o
+        for c in checks:
+            t0 = time.time()
+            rc, o = sh(f'/verif/check {c}', timeout=7200)
+            lines = [l for l in o.splitlines() if l.startswith('VIOLATION') or l.startswith(c + ' ')]
+            first = [l.strip() for l in o.splitlines() if l.startswith('  ') and not l.startswith('  [')][:2]
+            prev = meta['checks'].get(c)
+            meta['checks'][c] = {'exit': rc, 'caught': rc == 1, 'summary': lines[:3], 'first_violation': first, 'secs': round(time.time()-t0)}
+            if prev and not prev.get('caught') and rc == 1:
+                meta['checks'][c]['missed_before_strengthening'] = True
+            print(f'{sid} vs {c}: exit={rc} {" | ".join(lines[:2])[:200]} {first[:1]}')
+    finally:
+        sh('git -C /repo checkout -- .')
+        sh('rm -rf /verif/replays/*/found')
+        sh('git -C /verif checkout -- evidence 2>/dev/null')
+    json.dump(meta, open(f'{d}/meta.json', 'w'), indent=1)
+
 def main():
+    if sys.argv[1] == '--checks-only':
+        return checks_only(sys.argv[2], sys.argv[3:])
     sid = sys.argv[1]
     checks = sys.argv[2:]
     prop = sid.split('-')[0]
